@@ -14,7 +14,13 @@ def jAux (j : Json) : Except String Aux :=
   | _ => do return .scalar (← jRat j)
 
 def profileOp (op : String) (j : Json) : Except String Json := do
-  let k ← jNat (fldD j "propulsors" (natJ 1)); let m ← jNat (fldD j "aux_loads" (natJ 1))
+  -- the number of propulsors: given, or (the plant's make-up given) counted by the model
+  let k ← match (j.getObjVal? "drives").toOption with
+    | some d => do
+      let k := propulsors (← jNat d) (← jNat (fldD j "mech_loads" (natJ 0))) (← jBool (fldD j "shaft_lines" (Json.bool false)))
+      pure (if k == 0 then 1 else k)
+    | none => jNat (fldD j "propulsors" (natJ 1))
+  let m ← jNat (fldD j "aux_loads" (natJ 1))
   match op with
   | "profile.series" =>
     return preparedJ (fromSeries (← jRats (← fld j "t")) (← jRats (← fld j "P")) (← jAux (← fld j "aux"))) k m
